@@ -11,8 +11,8 @@ use std::collections::VecDeque;
 #[derive(Clone, Debug)]
 pub struct Profile {
     pub name: &'static str,
-    /// actor weights: builder, differ, graduser, lifetime, flagger, optimizer, retirer, refuser
-    pub w: [u32; 8],
+    /// actor weights: builder, differ, graduser, lifetime, flagger, optimizer, retirer, refuser, trainer
+    pub w: [u32; 9],
     pub custom_pct: u32,
     pub reent_pct: u32,
     pub bcast_pct: u32,
@@ -30,21 +30,22 @@ pub enum ShapeMode {
     Narrow,
 }
 
-pub const ACTORS: [&str; 8] = ["builder", "differ", "graduser", "lifetime", "flagger", "optimizer", "retirer", "refuser"];
+pub const ACTORS: [&str; 9] = ["builder", "differ", "graduser", "lifetime", "flagger", "optimizer", "retirer", "refuser", "trainer"];
 
 pub fn profile(name: &str) -> Profile {
-    let base = Profile { name: "C01", w: [50, 14, 4, 10, 6, 0, 2, 1], custom_pct: 20, reent_pct: 10, bcast_pct: 30, smooth_pct: 30, share_pct: 50, max_events: 60, shape: ShapeMode::Mixed };
+    let base = Profile { name: "C01", w: [50, 14, 4, 10, 6, 0, 2, 1, 0], custom_pct: 20, reent_pct: 10, bcast_pct: 30, smooth_pct: 30, share_pct: 50, max_events: 60, shape: ShapeMode::Mixed };
     match name {
         "C01" => base,
-        "C03" => Profile { name: "C03", w: [55, 16, 3, 6, 2, 3, 1, 1], custom_pct: 5, reent_pct: 0, bcast_pct: 85, smooth_pct: 0, share_pct: 75, ..base },
-        "C08" => Profile { name: "C08", w: [35, 12, 12, 14, 4, 8, 3, 4], custom_pct: 15, reent_pct: 20, bcast_pct: 20, smooth_pct: 20, share_pct: 60, shape: ShapeMode::Narrow, ..base },
-        "C09" => Profile { name: "C09", w: [40, 14, 6, 8, 24, 1, 6, 1], custom_pct: 15, reent_pct: 10, bcast_pct: 15, smooth_pct: 20, share_pct: 60, ..base },
-        "C10" => Profile { name: "C10", w: [34, 28, 12, 10, 5, 0, 2, 2], custom_pct: 20, reent_pct: 15, bcast_pct: 20, smooth_pct: 25, share_pct: 70, shape: ShapeMode::Narrow, ..base },
-        "C11" => Profile { name: "C11", w: [55, 16, 3, 8, 4, 0, 1, 0], custom_pct: 90, reent_pct: 25, bcast_pct: 0, smooth_pct: 0, share_pct: 80, shape: ShapeMode::Narrow, ..base },
-        "C12" => Profile { name: "C12", w: [50, 16, 8, 0, 5, 0, 0, 0], custom_pct: 15, reent_pct: 5, bcast_pct: 20, smooth_pct: 30, share_pct: 65, max_events: 30, ..base },
-        "C13" => Profile { name: "C13", w: [34, 18, 8, 6, 3, 22, 2, 1], custom_pct: 5, reent_pct: 0, bcast_pct: 25, smooth_pct: 40, share_pct: 60, ..base },
-        "C17" => Profile { name: "C17", w: [48, 20, 8, 8, 5, 0, 1, 1], custom_pct: 15, reent_pct: 5, bcast_pct: 20, smooth_pct: 40, share_pct: 60, max_events: 40, ..base },
-        "C18" => Profile { name: "C18", w: [38, 14, 8, 16, 4, 4, 16, 2], custom_pct: 15, reent_pct: 10, bcast_pct: 15, smooth_pct: 20, share_pct: 60, ..base },
+        "C03" => Profile { name: "C03", w: [55, 16, 3, 6, 2, 3, 1, 1, 0], custom_pct: 5, reent_pct: 0, bcast_pct: 85, smooth_pct: 0, share_pct: 75, ..base },
+        "C08" => Profile { name: "C08", w: [35, 12, 12, 14, 4, 8, 3, 4, 0], custom_pct: 15, reent_pct: 20, bcast_pct: 20, smooth_pct: 20, share_pct: 60, shape: ShapeMode::Narrow, ..base },
+        "C09" => Profile { name: "C09", w: [40, 14, 6, 8, 24, 1, 6, 1, 0], custom_pct: 15, reent_pct: 10, bcast_pct: 15, smooth_pct: 20, share_pct: 60, ..base },
+        "C10" => Profile { name: "C10", w: [34, 28, 12, 10, 5, 0, 2, 2, 0], custom_pct: 20, reent_pct: 15, bcast_pct: 20, smooth_pct: 25, share_pct: 70, shape: ShapeMode::Narrow, ..base },
+        "C11" => Profile { name: "C11", w: [55, 16, 3, 8, 4, 0, 1, 0, 0], custom_pct: 90, reent_pct: 25, bcast_pct: 0, smooth_pct: 0, share_pct: 80, shape: ShapeMode::Narrow, ..base },
+        "C12" => Profile { name: "C12", w: [50, 16, 8, 0, 5, 0, 0, 0, 0], custom_pct: 15, reent_pct: 5, bcast_pct: 20, smooth_pct: 30, share_pct: 65, max_events: 30, ..base },
+        "C13" => Profile { name: "C13", w: [34, 18, 8, 6, 3, 22, 2, 1, 0], custom_pct: 5, reent_pct: 0, bcast_pct: 25, smooth_pct: 40, share_pct: 60, ..base },
+        "C17" => Profile { name: "C17", w: [48, 20, 8, 8, 5, 0, 1, 1, 0], custom_pct: 15, reent_pct: 5, bcast_pct: 20, smooth_pct: 40, share_pct: 60, max_events: 40, ..base },
+        "C14" => Profile { name: "C14", w: [10, 4, 4, 6, 2, 0, 3, 1, 70], custom_pct: 5, reent_pct: 0, bcast_pct: 10, smooth_pct: 100, share_pct: 50, max_events: 90, shape: ShapeMode::Narrow, ..base },
+        "C18" => Profile { name: "C18", w: [38, 14, 8, 16, 4, 4, 16, 2, 0], custom_pct: 15, reent_pct: 10, bcast_pct: 15, smooth_pct: 20, share_pct: 60, ..base },
         _ => base,
     }
 }
@@ -62,6 +63,9 @@ pub struct Gen {
     pub base_dims: Vec<Vec<usize>>,
     pub last_actor: &'static str,
     pub faults_enabled: [bool; 4],
+    pub actor_log: Vec<&'static str>,
+    pub trains_left: u32,
+    pub train_kind_conv: bool,
 }
 
 const V_ADD: u8 = 0;
@@ -96,7 +100,7 @@ impl Gen {
                 continue;
             }
             // builder and differ always exist; every other actor is present in ~75% of the runs
-            if i < 2 || rng.chance(3, 4) {
+            if i < 2 || *w >= 40 || rng.chance(3, 4) {
                 let jitter = 50 + rng.below(101) as u32; // 50%..150%
                 actors.push((i, (*w * jitter / 100).max(1)));
             }
@@ -132,7 +136,7 @@ impl Gen {
         }
         let max_events = p.max_events / 2 + rng.below(p.max_events / 2 + 1);
         let faults_enabled = [rng.chance(3, 4), rng.chance(3, 4), rng.chance(3, 4), rng.chance(3, 4)];
-        Gen { rng, p, regime, queue: VecDeque::new(), next_slot: 0, emitted: 0, max_events, actors, vocab, base_dims, last_actor: "", faults_enabled }
+        Gen { rng, p, regime, queue: VecDeque::new(), next_slot: 0, emitted: 0, max_events, actors, vocab, base_dims, last_actor: "", faults_enabled, actor_log: Vec::new(), trains_left: 2, train_kind_conv: false }
     }
 
     fn fresh_slot(&mut self) -> Slot {
@@ -607,6 +611,120 @@ impl Gen {
         }
     }
 
+    fn dyadic(&mut self, lo: i64, hi: i64, den: f64) -> f64 {
+        self.rng.range(lo, hi) as f64 / den
+    }
+
+    fn layer_stack(&mut self) -> (Vec<LayerSpec>, CostKind) {
+        let cost = if self.rng.chance(1, 2) { CostKind::Mse } else { CostKind::CrossEntropy };
+        let conv = self.rng.chance(30, 100);
+        self.train_kind_conv = conv;
+        let n = 1 + self.rng.weighted(&[30, 50, 20]);
+        let mut layers = Vec::new();
+        if conv {
+            let n = n.min(2);
+            let mut depth = 1 + self.rng.below(2);
+            for i in 0..n {
+                let count = 1 + self.rng.below(2);
+                let (fr, fc) = (1 + self.rng.below(2), 1 + self.rng.below(2));
+                let (sr, sc) = (1 + self.rng.below(2), 1 + self.rng.below(2));
+                let last = i + 1 == n;
+                let act = self.pick_act(last, cost);
+                let w = (0..count * depth * fr * fc).map(|_| self.dyadic(-8, 8, 8.0)).collect();
+                let b = (0..count).map(|_| self.dyadic(-8, 8, 8.0)).collect();
+                layers.push(LayerSpec::Conv { count, depth, fr, fc, sr, sc, act, w, b });
+                depth = count;
+            }
+        } else {
+            let mut inp = 1 + self.rng.below(4);
+            for i in 0..n {
+                let out = 1 + self.rng.below(4);
+                let last = i + 1 == n;
+                let act = self.pick_act(last, cost);
+                let w = (0..inp * out).map(|_| self.dyadic(-8, 8, 8.0)).collect();
+                let b = (0..out).map(|_| self.dyadic(-8, 8, 8.0)).collect();
+                layers.push(LayerSpec::Dense { inp, out, act, w, b });
+                inp = out;
+            }
+        }
+        (layers, cost)
+    }
+
+    fn pick_act(&mut self, last: bool, cost: CostKind) -> Act {
+        if last && cost == CostKind::CrossEntropy {
+            if self.rng.chance(1, 2) {
+                Act::Sigmoid
+            } else {
+                Act::Softmax
+            }
+        } else {
+            *self.rng.pick(&[Act::None, Act::Relu, Act::Sigmoid, Act::Sigmoid, Act::Softmax])
+        }
+    }
+
+    fn batch_for(&mut self, sim: &Sim) -> Option<(Vec<usize>, Vec<f64>)> {
+        let first = sim.train_first_layer.as_ref()?;
+        let dims = match first {
+            LayerSpec::Dense { inp, .. } => match self.rng.weighted(&[25, 25, 50]) {
+                0 => vec![*inp],
+                1 => vec![1, *inp],
+                _ => vec![2 + self.rng.below(3), *inp],
+            },
+            LayerSpec::Conv { depth, fr, fc, .. } => {
+                // large enough for a second layer of 2x2 filters with stride 2 after a stride-2 first layer
+                let r = fr + 2 + self.rng.below(4);
+                let c = fc + 2 + self.rng.below(4);
+                vec![*depth, r, c]
+            }
+        };
+        let n = numel(&dims);
+        let vals = (0..n).map(|_| self.dyadic(-8, 8, 4.0)).collect();
+        Some((dims, vals))
+    }
+
+    fn trainer(&mut self, sim: &Sim) -> Vec<Ev> {
+        match sim.train_phase {
+            0 => {
+                if self.trains_left == 0 {
+                    return vec![];
+                }
+                self.trains_left -= 1;
+                let (layers, cost) = self.layer_stack();
+                let lr = *self.rng.pick(&[0.5, 0.125, 0.0625, 0.25, 1.0, 0.0]);
+                vec![Ev::TrainOpen { layers, cost, lr }, Ev::ModelOpen]
+            }
+            1 => match self.rng.weighted(&[70, 20, 10]) {
+                0 => vec![Ev::ModelOpen],
+                1 => {
+                    let n = sim.train_param_count;
+                    let dst: Vec<Slot> = (0..n).map(|_| self.fresh_slot()).collect();
+                    vec![Ev::TakeParams { dst }]
+                }
+                _ => vec![Ev::TrainClose],
+            },
+            2 | 3 => {
+                if sim.train_phase == 2 && self.rng.chance(8, 100) {
+                    return vec![Ev::ModelClose];
+                }
+                if sim.train_phase == 3 && !self.rng.chance(8, 100) {
+                    // backward with a target of the output's shape
+                    let od = match &sim.train_out_dims {
+                        Some(d) => d.clone(),
+                        None => return vec![],
+                    };
+                    let n = numel(&od);
+                    let vals = (0..n).map(|_| self.dyadic(0, 4, 4.0)).collect();
+                    return vec![Ev::Bwd { dims: od, vals }];
+                }
+                match self.batch_for(sim) {
+                    Some((dims, vals)) => vec![Ev::Fwd { dims, vals, keep_output: self.rng.chance(25, 100), twice: self.rng.chance(6, 100) }],
+                    None => vec![],
+                }
+            }
+            _ => vec![Ev::Upd],
+        }
+    }
+
     fn refuser(&mut self, sim: &Sim) -> Vec<Ev> {
         let a = match self.any_live(sim) {
             Some(s) => s,
@@ -640,7 +758,7 @@ impl Gen {
     }
 
     /// Next event, or None when the run's budget is used up.
-    pub fn next(&mut self, sim: &Sim) -> Option<Ev> {
+    pub fn next_event(&mut self, sim: &Sim) -> Option<Ev> {
         if let Some((e, a)) = self.queue.pop_front() {
             self.last_actor = a;
             self.emitted += 1;
@@ -660,7 +778,8 @@ impl Gen {
                 4 => self.flagger(sim),
                 5 => self.optimizer(sim),
                 6 => self.retirer(sim),
-                _ => self.refuser(sim),
+                7 => self.refuser(sim),
+                _ => self.trainer(sim),
             };
             if evs.is_empty() {
                 continue;
@@ -674,5 +793,15 @@ impl Gen {
             return Some(e);
         }
         None
+    }
+}
+
+impl crate::train::Source for Gen {
+    fn next(&mut self, sim: &Sim) -> Option<Ev> {
+        let e = self.next_event(sim);
+        if e.is_some() {
+            self.actor_log.push(self.last_actor);
+        }
+        e
     }
 }
